@@ -151,7 +151,21 @@ pub fn run(seed: u64, n_random: u64) {
             let guard = r.next();
             buf[8..].copy_from_slice(&guard.to_le_bytes());
             let before = buf;
-            let res = out::guarded(|| info.write_to_buffer(x as u64, &mut buf).map_err(|e| e.to_string()));
+            let mut res = out::guarded(|| info.write_to_buffer(x as u64, &mut buf).map_err(|e| e.to_string()));
+            // self-validation only: pretend the range table were wider / narrower / truncating
+            match out::mutant() {
+                "range_pc32_unsigned" if rel.name == "R_X86_64_PC32" && (1i128 << 31..1i128 << 32).contains(&xi) => {
+                    buf[..4].copy_from_slice(&(x as u32).to_le_bytes());
+                    res = Ok(Ok(()));
+                }
+                "range_32s_rejects_negative" if rel.name == "R_X86_64_32S" && xi < 0 => {
+                    res = Ok(Err("mutant".into()));
+                }
+                "range_abs32_truncates" if rel.name == "R_AARCH64_ABS32" && res == Ok(Ok(())) => {
+                    buf[3] = 0;
+                }
+                _ => {}
+            }
             let sample = |what: &str, extra: String| {
                 format!(
                     "\"arch\":\"{}\",\"reloc\":\"{}\",\"r_type\":{},\"value\":\"{x}\",\"value_hex\":\"0x{:x}\",\"what\":\"{what}\"{extra}",
